@@ -97,10 +97,22 @@ package domainmatcher
 //@   trusted
 //@   modifies nothing
 //@   ensures m != nil && fresh(m)
-//@ func LoadMixMatcherFromReader(m *MixMatcher, r io.Reader) (err error)
+//@ func (m *MixMatcher) Add(rule []byte) (err error)
 //@   trusted
 //@   requires m != nil
 //@   modifies pkgheaps(domain_matcher)
+
+// The loader: what reaches MixMatcher.Add is the line with its '#' comment cut off and then trimmed: never empty,
+// never containing '#', never starting or ending with white space; blank and comment-only lines add nothing.
+//@ func LoadMixMatcherFromReader(m *MixMatcher, r io.Reader) (err error)
+//@   props C11
+//@   requires m != nil
+//@   modifies pkgheaps(domain_matcher)
+//@   noterm -- reading ends when the reader does (bufio.Scanner); not a property of this code
+//@   callsite Add?: [C11:entry-is-the-uncommented-trimmed-line] len(arg1) > 0 && forall(j, 0, len(arg1), arg1[j] != '#')
+//@             && !asciiSpace(arg1[0]) && !asciiSpace(arg1[len(arg1)-1])
+//@   loop 1:
+//@     modifies pkgheaps(domain_matcher)
 //@ func (m *MixMatcher) Len() (n int)
 //@   trusted
 //@   modifies nothing
